@@ -16,7 +16,7 @@ def run(tier, lab):
     r1 = lib.tlc("MC_Ja3", timeout=300, constants={"Sim": "FALSE", "MaxC": "3", "MaxE": "3"}, workers=4)
     lib.tlc_must_pass(r1, "Ja3 exhaustive small hellos (GreaseInvariant, OrderSensitive)")
     ck.add_tlc(r1, "Ja3: all hellos over 2 versions x <=2 of 4 ciphers x <=2 of 5 extension types x 3 group lists x 3 point lists")
-    n = 300 if tier == "quick" else 8000
+    n = 300 if tier == "quick" else 40000
     r2 = lib.tlc("MC_Ja3", timeout=600, constants={"Sim": "TRUE", "MaxC": "40", "MaxE": "20"}, simulate=max(1, n // 8), depth=3,
                  tlc_seed=lib.seed(), workers=8)
     lib.tlc_must_pass(r2, "Ja3 simulate large hellos")
